@@ -217,3 +217,63 @@ Theorem C08_forwards_deps : forall (o i : sigT) (n : nat) (names0 : list name) (
 Proof. exact @ProvDepths.forwards_deps. Qed.
 Print Assumptions C08_forwards_deps.
 
+
+(* ---- the n-ary embed without the stars_apart hypothesis, its exact hypothesis, and the plain n-ary merge (Proofs/ProvEmbedN.v, ProvEmbedNExact.v) ---- *)
+From Sigtools.Proofs Require Import ProvEmbedN.
+Theorem C08_embed_n_src_ok : forall (s0 : sigT) (ss : list sigT) (uva uvk : bool) (r : sigT), embed (s0 :: ss) uva uvk = Ok r -> valid_sig (params s0) = true -> stars_apart_fold uva uvk (s0 :: ss) = true -> src_ok s0 -> Forall src_nonempty ss -> src_ok r.
+Proof. exact @ProvEmbedN.embed_n_src_ok. Qed.
+Print Assumptions C08_embed_n_src_ok.
+
+Theorem C08_stars_apart_fold_weaker : forall (uva uvk : bool) (ss : list sigT), stars_apart ss = true -> stars_apart_fold uva uvk ss = true.
+Proof. exact @ProvEmbedN.stars_apart_fold_weaker. Qed.
+Print Assumptions C08_stars_apart_fold_weaker.
+
+Theorem C08_embed_n_truthful : forall (s0 : sigT) (ss : list sigT) (uva uvk : bool) (r : sigT) (x : name) (f : N), embed (s0 :: ss) uva uvk = Ok r -> NoDup (keys (srcs s0)) -> In f (src_get (srcs r) x) -> exists s : sigT, In s (s0 :: ss) /\ In f (src_get (srcs s) x).
+Proof. exact @ProvEmbedN.embed_n_truthful. Qed.
+Print Assumptions C08_embed_n_truthful.
+
+Theorem C08_embed_n_truthful_entries : forall (s0 : sigT) (ss : list sigT) (uva uvk : bool) (r : sigT) (x : name) (f : N), embed (s0 :: ss) uva uvk = Ok r -> In f (src_get (srcs r) x) -> exists (s : sigT) (v : list N), In s (s0 :: ss) /\ In (x, v) (srcs s) /\ In f v.
+Proof. exact @ProvEmbedN.embed_n_truthful_entries. Qed.
+Print Assumptions C08_embed_n_truthful_entries.
+
+Theorem C08_embed_n_truthful_needs_dict : exists s0 s1 r : sigT, embed [s0; s1] true true = Ok r /\ valid_sig (params s0) = true /\ valid_sig (params s1) = true /\ src_get (srcs r) 1 = [200] /\ src_get (srcs s0) 1 = [100] /\ src_get (srcs s1) 1 = [].
+Proof. exact @ProvEmbedN.embed_n_truthful_needs_dict. Qed.
+Print Assumptions C08_embed_n_truthful_needs_dict.
+
+Theorem C08_embed_n_src_shape : forall (s0 : sigT) (ss : list sigT) (uva uvk : bool) (r : sigT) (x : name), embed (s0 :: ss) uva uvk = Ok r -> Forall (fun s : sigT => valid_sig (params s) = true) (s0 :: ss) -> NoDup (keys (srcs s0)) -> src_get (srcs r) x = [] \/ (exists s : sigT, In s (s0 :: ss) /\ src_get (srcs r) x = src_get (srcs s) x).
+Proof. exact @ProvEmbedN.embed_n_src_shape. Qed.
+Print Assumptions C08_embed_n_src_shape.
+
+Theorem C08_embed_n_nodup : forall (s0 : sigT) (ss : list sigT) (uva uvk : bool) (r : sigT) (x : name), embed (s0 :: ss) uva uvk = Ok r -> Forall (fun s : sigT => valid_sig (params s) = true) (s0 :: ss) -> NoDup (keys (srcs s0)) -> (forall s : sigT, In s (s0 :: ss) -> NoDup (src_get (srcs s) x)) -> NoDup (src_get (srcs r) x).
+Proof. exact @ProvEmbedN.embed_n_nodup. Qed.
+Print Assumptions C08_embed_n_nodup.
+
+Theorem C08_merge_src_shape_n_partial : forall (ss : list sigT) (r : sigT) (x : name), merge ss = Ok r -> exists js : list nat, (forall j : nat, In j js -> (j < length ss)%nat) /\ src_get (srcs r) x = cat_of ss x js.
+Proof. exact @ProvEmbedN.merge_src_shape_n_partial. Qed.
+Print Assumptions C08_merge_src_shape_n_partial.
+
+Theorem C08_merge_src_shape_n_refuted : exists (s1 s2 s3 s4 r : sigT) (x : name), Forall (fun s : sigT => valid_sig (params s) = true) [s1; s2; s3; s4] /\ Forall src_ok [s1; s2; s3; s4] /\ merge [s1; s2; s3; s4] = Ok r /\ ~ (exists js : list nat, NoDup js /\ (forall j : nat, In j js -> (j < length [s1; s2; s3; s4])%nat) /\ src_get (srcs r) x = cat_of [s1; s2; s3; s4] x js).
+Proof. exact @ProvEmbedN.merge_src_shape_n_refuted. Qed.
+Print Assumptions C08_merge_src_shape_n_refuted.
+
+From Sigtools.Proofs Require Import ProvEmbedNExact.
+Theorem C08_embed_n_src_ok_exact : forall (s0 : sigT) (ss : list sigT) (uva uvk : bool) (r : sigT), embed (s0 :: ss) uva uvk = Ok r -> valid_sig (params s0) = true -> stars_apart_exact uva uvk (s0 :: ss) = true -> src_ok s0 -> Forall src_nonempty ss -> src_ok r.
+Proof. exact @ProvEmbedNExact.embed_n_src_ok_exact. Qed.
+Print Assumptions C08_embed_n_src_ok_exact.
+
+Theorem C08_embed_n_src_ok_necessary : forall (s0 : sigT) (ss : list sigT) (uva uvk : bool) (r : sigT), embed (s0 :: ss) uva uvk = Ok r -> stars_apart_exact uva uvk (s0 :: ss) = false -> ~ src_ok r.
+Proof. exact @ProvEmbedNExact.embed_n_src_ok_necessary. Qed.
+Print Assumptions C08_embed_n_src_ok_necessary.
+
+Theorem C08_embed_n_src_ok_iff : forall (s0 : sigT) (ss : list sigT) (uva uvk : bool) (r : sigT), embed (s0 :: ss) uva uvk = Ok r -> valid_sig (params s0) = true -> src_ok s0 -> Forall src_nonempty ss -> src_ok r <-> stars_apart_exact uva uvk (s0 :: ss) = true.
+Proof. exact @ProvEmbedNExact.embed_n_src_ok_iff. Qed.
+Print Assumptions C08_embed_n_src_ok_iff.
+
+Theorem C08_stars_apart_fold_exact : forall (uva uvk : bool) (ss : list sigT), stars_apart_fold uva uvk ss = true -> stars_apart_exact uva uvk ss = true.
+Proof. exact @ProvEmbedNExact.stars_apart_fold_exact. Qed.
+Print Assumptions C08_stars_apart_fold_exact.
+
+Theorem C08_stars_apart_fold_not_necessary : exists r : sigT, embed [dsig 100 [bp 9 VP]; dsig 101 [bp 9 VP; {| pname := 1; pkind := KO; pdef := Some 1; pann := None; puann := UEmpty |}]; dsig 102 [bp 1 VP]; dsig 103 [bp 9 VP]] true true = Ok r /\ stars_apart_fold true true [dsig 100 [bp 9 VP]; dsig 101 [bp 9 VP; {| pname := 1; pkind := KO; pdef := Some 1; pann := None; puann := UEmpty |}]; dsig 102 [bp 1 VP]; dsig 103 [bp 9 VP]] = false /\ src_ok r.
+Proof. exact @ProvEmbedN.stars_apart_fold_not_necessary. Qed.
+Print Assumptions C08_stars_apart_fold_not_necessary.
+
